@@ -116,6 +116,14 @@ def run_c17(ctx):
     return [run_olh(ctx, 'olvm', twin_args(ctx, ['-histories', '60', '-blocks', '12', '-maxtxs', '8'], ['-histories', '1200', '-blocks', '20', '-maxtxs', '10']))]
 
 
+def run_c04(ctx):
+    """sig = property monitor on the whole application (mutants of every kind through CheckTx and
+    directly in blocks on a twin); sigm = correspondence of OLP/Sig/Model.lean with RawBytes(),
+    ValidateBasic + key handlers, and the OLVM validateSigner, plus component-level monitors"""
+    return [run_olh(ctx, 'sig', twin_args(ctx, ['-histories', '200', '-blocks', '14', '-maxtxs', '6'], ['-histories', '3000', '-blocks', '24', '-maxtxs', '8'])),
+            run_olh(ctx, 'sigm', ['-corpus', os.path.join(ctx['root'], 'corpus', 'C04')] + twin_args(ctx, ['-raw', '15000', '-vb', '20000', '-olvm', '62'], ['-raw', '300000', '-vb', '400000', '-olvm', '600']))]
+
+
 SHELL_ASSUME = [
     'handlers are abstracted as arbitrary interaction-tree programs; the side conditions of the generic theorems (AllAimed, NoVset, EnvFree, GasBlind, VolDerived) are discharged for the real code by the regenerated fact tables (T3, `decide`) where a static fact exists, and otherwise exercised dynamically by the twin-replica engines',
     'the shell model is tied to app/controller.go by the `shell` engine: every ABCI call of generated histories (with CheckTx calls and restarts mixed in) is re-run by the Lean model with handlers abstracted to their observed writes; block-cache digests, results, index short-circuits, commit write logs (replayed into IAVL against the real application hash) and Info after restarts must agree',
@@ -230,20 +238,24 @@ PROPS = {
         required_theorems=['vote_only_own_slot_once', 'nonwitness_vote_does_not_count', 'wrong_index_does_not_count', 'second_vote_refused',
                            'yes_count_monotone', 'no_count_monotone', 'threshold_is_more_than_two_thirds', 'never_both_decided',
                            'wf_reachable', 'endBlock_never_panics', 'block_end_moves_no_value', 'cleanup_moves_released', 'cleanup_moves_failed',
-                           'mint_requires_two_thirds_and_locked_amount', 'mint_to_submitter_partial', 'mint_credits_the_reports_locker',
-                           'mint_goes_to_named_locker_not_submitter', 'mint_at_most_once_partial', 'same_external_tx_one_tracker_partial',
-                           'duplicate_eth_lock_rejected', 'duplicate_eth_redeem_rejected', 'erc20_lock_resubmission_mints_twice',
+                           'mint_requires_two_thirds_and_locked_amount', 'mint_to_submitter', 'report_ignores_the_locker_field',
+                           'mint_credits_the_tracker_owner', 'lying_report_is_harmless', 'mint_at_most_once', 'never_ongoing_and_completed',
+                           'same_external_tx_one_tracker', 'erc20_redeem_after_failed_redeem_is_refused',
+                           'duplicate_eth_lock_rejected', 'duplicate_erc20_lock_rejected', 'duplicate_eth_redeem_rejected',
+                           'duplicate_erc20_redeem_rejected',
+                           'erc20_lock_resubmission_is_refused',
                            'redeem_debits_before_tracker', 'refund_at_most_once', 'refund_requires_two_thirds_no_and_pays_owner',
                            'counted_votes_are_witness_reports', 'tracker_comes_from_submission', 'supply_eq_circulation_partial',
-                           'lying_locker_can_double_count_the_supply'],
+                           'lying_report_cannot_touch_the_supply'],
         run=run_c15, replay=replay_olh('ethtrk'), level='proof',
         assumptions=[
             'the witness list is fixed at genesis and holds no address twice (witness records are keyed by address; nothing adds a witness after InitChain) — hypothesis Cfg.WF of the theorems',
             'an external (Ethereum) transaction is identified with the tracker name the code derives from it (the trailing 32 bytes of the submitted raw transaction, i.e. the S value of its signature); the signed transaction kept in a tracker is abstracted to the amount the repo\'s parser reads from it, its currency, and whether it is addressed to a listed token contract; the harness decodes those independently (go-ethereum RLP decoder + ABI layout) from every stored record',
             'block-end transitions: which trackers doEthTransitions visits (names already in the committed tree) and whether a transition function fails on the node\'s job store enter the model as inputs of the endBlock operation; every theorem holds for all such inputs',
-            'partial clauses: mint_to_submitter needs every report to name the submitter (KF-C15-1); mint_at_most_once / same_external_tx_one_tracker need ERC20 submissions to carry fresh external transactions (KF-C15-2); supply_eq_circulation needs that no report names the supply address itself as Locker (same root cause as KF-C15-1); each has a proved counterexample that the engine replays on the implementation in every run (scripted scenarios)',
+            'the model follows the repaired code (0a509b2 mint to tracker.ProcessOwner, 9de5f06 existence checks in runERC20Lock, efdfa81 failed-store check in runERC20Reddem): mint_to_submitter, mint_at_most_once and same_external_tx_one_tracker are proved at full strength; the former counterexample histories are regression examples in Lean and scripted regression scenarios (-2 … -5) in the engine, whose monitors (mint-credits-reports-locker-not-submitter, erc20-lock-resubmission-accepted, duplicate-submission-accepted-after-failure, name-in-two-stores, regression-scenario-outcome; none listed in known_findings.json) make a regression a VIOLATION',
+            'one _partial theorem remains: supply_eq_circulation_partial needs that no submitter / SEND sender / SEND receiver is the supply address itself — a fact of the signature and validation layer (nobody holds a key for that 22-byte address, Send.Validate refuses it), which this model does not contain',
         ],
-        model_limits='Validate/fee handling of the five transaction kinds, the Ethereum side (whether the external transaction exists and is final: the witnesses\' off-chain jobs) and the job store are outside the model; negative VoteIndex, a contract-creation payload, a redeem payload without the selector and an ERC20 lock whose transfer receiver is not the ERC contract panic in the handlers (modelled as Res.panic, never sent by this engine: C18); the supply cap is checked at submission only, not at mint (as in the code)'),
+        model_limits='Validate/fee handling of the five transaction kinds, the Ethereum side (whether the external transaction exists and is final: the witnesses\' off-chain jobs) and the job store are outside the model; negative VoteIndex, a contract-creation payload, a redeem payload without the selector and an ERC20 lock whose transfer receiver is not the ERC contract panic in the handlers (modelled as Res.panic, never sent by this engine: C18); the supply cap is checked at submission only, not at mint; an ERC20 redeem addressed to the ERC contract can never be finalized (burnERC20Tokens looks the token up by tx.To()) and a failing ERC20 tracker is never archived — modelled as in the code, liveness is not part of the property'),
     'C11': dict(
         lean_modules=['OLP.Props.C11'], namespaces=['OLP.Props.C11'],
         required_theorems=['frozen_blocks_all_three', 'pending_allegation_blocks_unstake', 'withdraw_needs_bounded',
@@ -292,4 +304,21 @@ PROPS = {
                      'signature recovery (EIP-155), chain-id comparison, JSON / RLP sizes and strconv.ParseUint of the memo are decoded facts of a transaction (Tx.sigOk, chainOk, senderOk, size, memo); keccak is not modelled: the address of a created contract is an input',
                      'the theorems about an executed transaction are stated for an empty EVM object cache (an invariant of every history: step_keeps_cache_empty), no negative stored balance of the credited account (C02), and - for the exact sender / recipient / bystander equalities - accounts whose balance the contract code itself does not move; value conservation is proved for runs without a surviving SELFDESTRUCT (the code loses the ledger there, KF-C17-1)'],
         model_limits='contract storage, code bytes and logs are not modelled (C16); precompile recipients and contracts that CREATE are neither generated nor modelled; transactions that make Validate panic (signature field not 65 bytes, payload without chain id) close the node and belong to C18: the model marks them as panic, the generator does not produce them; branches of the model that the application cannot reach through ABCI in this tree because Validate runs first (TransitionDb nonce / EOA / funds / intrinsic-gas errors, ContractFeeHandling gas overflow, EVM.Call / create insufficient balance, address collision) are covered by the theorems but not by the correspondence; in the finite-block-gas family a transaction whose gas limit is within 3000 of what the block has left is not compared (the harness cannot observe the pool at the instant of buyGas)'),
+    'C04': dict(
+        lean_modules=['OLP.Props.C04', 'OLP.Props.C04Facts'], namespaces=['OLP.Props.C04'],
+        required_theorems=['validateBasic_iff', 'validateBasic_never_panics', 'signature_count_mismatch_rejected', 'substituted_signer_rejected',
+                           'unverified_signature_rejected', 'accepted_signatures_fix_signers', 'reordered_signatures_rejected',
+                           'unser_ser', 'ser_injective', 'serBytes_injective', 'mutation_changes_signed_bytes', 'tamper_needs_fresh_signatures', 'tamper_rejected',
+                           'authentic_partial', 'btcec_accepts_unsigned', 'btcec_counterexample', 'btcec_only_for_empty_signer',
+                           'checkTx_admits_only_validated', 'deliverTx_executes_only_validated', 'invalid_signature_delivery_without_effect', 'sigAdmit_basic_iff',
+                           'olvm_sender_recovered', 'olvm_memo_pins_nonce', 'olvm_uncovered_fields_unsigned', 'olvm_covered_partial', 'olvm_malformed_signature_panics', 'olvm_never_panics_partial',
+                           'every_handler_checks_signatures', 'every_registered_kind_validates', 'validate_guards_present', 'validate_precedes_processing'],
+        run=run_c04, replay=replay_olh('sigm'), level='proof',
+        assumptions=[
+            'cryptography is a parameter of every theorem (verify / addrOf / Prims / EthLib are arbitrary functions): no unforgeability is assumed; tamper_rejected states it as an explicit hypothesis (every verifying signature was produced by the key owner, who signed nothing but the original bytes)',
+            'strings of a parsed transaction are valid UTF-8 (json.Unmarshal replaces invalid bytes; checked on every run by the sigm engine, monitor parsed-string-not-utf8): ser_injective / serBytes_injective quantify over all Unicode strings, all integers and all byte payloads (nil and empty distinguished), base64 and the encoding/json escaping (Go >= 1.22: \\b and \\f short escapes, HTML escaping, U+2028/9) are modelled concretely and proved decodable',
+            'premise ValidatesSignatures of the admission theorems (handler.Validate fails when the signature predicate of the kind is false) is tied to the source by the regenerated table validateRows: one row per Go type implementing action.Tx, classified by the shape of its Validate, discharged by decide (OLP/Props/C04Facts.lean); the entry-point discipline (Validate before ProcessCheck/ProcessDeliver/ProcessFee, failure returned) by validateGuards / sessionRule',
+            'the shell model (checkTx / deliverTx) is tied to app/controller.go by the `shell` engine of C01/C05-C08; RawBytes(), ValidateBasic with the four key handlers, and the OLVM validateSigner are tied by the `sigm` engine on every run',
+        ],
+        model_limits='the library primitives (ed25519 / secp256k1 / go-ethereum / btcec point parsing, address hashes, signature verification, EIP-155 sender recovery) are uninterpreted parameters answered by the real libraries in the correspondence run; the JSON *decoder* is not modelled (unser is a proof device; acceptance of non-canonical encodings is C05); Go < 1.22 escapes \\b and \\f as \\u0008 / \\u000c, so nodes built with different toolchains would disagree on RawBytes() of such memos (outside the model); internal transactions created by block hooks (ExpireProposals / FinalizeProposals) do not pass Validate and are outside this property'),
 }
